@@ -491,7 +491,38 @@ pub fn pp2_dev_case(s: &mut Session, sc: &Pp2Dev) {
             st.bytes.len() + devs.iter().map(|id| objs[id].bytes.len()).sum::<usize>()
         })
         .collect();
-    s.case("ppf2.dpoints", req, format!("{} | {}", join(&points), join(&real_sizes)));
+    // emitted coverage / class definition 1 of every piece against the estimator's formulas
+    // (4 + 2 per glyph; 4 + 6 per run of consecutive glyphs of one class, original class 0 skipped),
+    // computed here from the scenario's (glyph, class) list: model-independent
+    let cov_bytes: Vec<usize> = subs.iter().map(|st| link_at(st, 2).map(|id| objs[&id].bytes.len()).unwrap_or(0)).collect();
+    let cd_bytes: Vec<usize> = subs.iter().map(|st| link_at(st, 8).map(|id| objs[&id].bytes.len()).unwrap_or(0)).collect();
+    let mut lo = 0usize;
+    let (mut cov_est, mut cd_est) = (vec![], vec![]);
+    for hi in &points {
+        let mut ce = 4usize;
+        let mut de = 4usize;
+        for c in lo..*hi {
+            let mut gl: Vec<u16> = sc.gc.iter().filter(|p| p.1 as usize == c).map(|p| p.0).collect();
+            gl.sort();
+            gl.dedup();
+            ce += 2 * gl.len();
+            if c != 0 {
+                de += 6 * gl.iter().enumerate().filter(|(i, g)| *i == 0 || gl[*i - 1] + 1 != **g).count();
+            }
+        }
+        cov_est.push(ce);
+        cd_est.push(de);
+        lo = *hi;
+    }
+    let sound = cov_bytes.iter().zip(&cov_est).all(|(a, e)| a <= e) && cd_bytes.iter().zip(&cd_est).all(|(a, e)| a <= e);
+    s.oracle("ppf2-piece:coverage-and-classdef-estimates-are-upper-bounds", sound, name, || {
+        format!("coverage bytes {cov_bytes:?} vs estimates {cov_est:?}; class def 1 bytes {cd_bytes:?} vs estimates {cd_est:?}")
+    });
+    s.case(
+        "ppf2.dpoints",
+        req,
+        format!("{} | {} | {} | {} | {} | {}", join(&points), join(&real_sizes), join(&cov_bytes), join(&cd_bytes), join(&cov_est), join(&cd_est)),
+    );
 }
 
 pub fn gen_pp2_dev(rng: &mut Rng, s: &mut Session, _thorough: bool) -> Pp2Dev {
